@@ -19,9 +19,50 @@ func init() {
 var gobRoots = []string{"Swagger", "Operation", "Parameter", "Schema", "Response", "Ref"}
 
 // gobEncodedType finds the static type of the value handed to (*gob.Encoder).Encode in a GobEncode body.
+// gobHelper: a package function that hands one of its parameters to the gob encoder/decoder; returns the
+// index of that parameter, or -1.
+func (c *Ctx) gobHelperParam(g *types.Func, method string) int {
+	gfd := c.decl(g)
+	if gfd == nil || gfd.Body == nil || gfd.Recv != nil {
+		return -1
+	}
+	idx := -1
+	ast.Inspect(gfd.Body, func(n ast.Node) bool {
+		call, ok := n.(*ast.CallExpr)
+		if !ok || len(call.Args) != 1 {
+			return true
+		}
+		r, name, pkg, isM := c.calleeMethod(call)
+		if isM && pkg == "encoding/gob" && (r == "Encoder" && name == "Encode" && method == "GobEncode" || r == "Decoder" && name == "Decode" && method == "GobDecode") {
+			if id, ok := unparen(call.Args[0]).(*ast.Ident); ok {
+				idx = c.paramIndex(gfd, c.objOf(id))
+			}
+		}
+		return true
+	})
+	return idx
+}
+
 func (c *Ctx) gobCodecValue(fd *ast.FuncDecl, method string) (types.Type, ast.Expr) {
 	var t types.Type
 	var arg ast.Expr
+	// through a helper: gobEncodeValue(x) / gobDecodeValue(b, &x)
+	ast.Inspect(fd.Body, func(n ast.Node) bool {
+		call, ok := n.(*ast.CallExpr)
+		if !ok {
+			return true
+		}
+		if g, ok := c.callee(call).(*types.Func); ok && g.Pkg() == c.Types {
+			if pi := c.gobHelperParam(g, method); pi >= 0 && pi < len(call.Args) {
+				arg = call.Args[pi]
+				t = c.typeOf(arg)
+				if method == "GobDecode" {
+					t = derefType(t)
+				}
+			}
+		}
+		return true
+	})
 	ast.Inspect(fd.Body, func(n ast.Node) bool {
 		call, ok := n.(*ast.CallExpr)
 		if !ok || len(call.Args) != 1 {
@@ -515,63 +556,73 @@ func (c *Ctx) securityStates(rule, tname string, efd, dfd *ast.FuncDecl, rawEnc,
 	}
 	c.ob(rule, tname+":security:nil-state", efd.Pos(), nilBranch, "absent security must be encoded without raising SecurityIsEmpty")
 	c.ob(rule, tname+":security:empty-state", efd.Pos(), emptyFlag && emptyClears, "an empty (non-nil) security list must raise SecurityIsEmpty under len(Security)==0 (gob itself drops the empty slice)")
-	// decode side: a switch with case raw.SecurityIsEmpty -> non-nil empty literal; case len(raw.Alias.Security)==0 -> nil; default -> rebuild from raw.Security
+	// decode side, decided from the conditions that hold at each assignment to <raw>.Alias.Security (switch,
+	// if-chain or early returns alike): under SecurityIsEmpty a non-nil empty list; under "nothing transmitted"
+	// nil; otherwise a list rebuilt from the padded <raw>.Security (in place or by a helper)
 	decEmpty, decNil, decRebuild := false, false, false
+	usesPadded := func(e ast.Expr) bool {
+		found := false
+		ast.Inspect(e, func(m ast.Node) bool {
+			if ex, ok := m.(ast.Expr); ok {
+				if p, ok := c.apath(ex); ok && p.Root == rawDec && len(p.Steps) == 1 && p.Steps[0] == "Security" {
+					found = true
+				}
+			}
+			return true
+		})
+		return found
+	}
 	ast.Inspect(dfd.Body, func(n ast.Node) bool {
-		sw, ok := n.(*ast.SwitchStmt)
-		if !ok || sw.Tag != nil {
+		as, ok := n.(*ast.AssignStmt)
+		if !ok {
 			return true
 		}
-		for _, cl := range sw.Body.List {
-			cc := cl.(*ast.CaseClause)
-			assignsSecurity := func(pred func(ast.Expr) bool) bool {
-				found := false
-				for _, s := range cc.Body {
-					ast.Inspect(s, func(m ast.Node) bool {
-						if as, ok := m.(*ast.AssignStmt); ok {
-							for i, l := range as.Lhs {
-								if p, ok := c.apath(l); ok && p.Root == rawDec && len(p.Steps) == 2 && lastStep(p) == "Security" && i < len(as.Rhs) && pred(as.Rhs[i]) {
-									found = true
-								}
-							}
-						}
-						return true
-					})
-				}
-				return found
+		for i, l := range as.Lhs {
+			p, ok := c.apath(l)
+			if !ok || p.Root != rawDec || len(p.Steps) != 2 || lastStep(p) != "Security" || i >= len(as.Rhs) {
+				continue
 			}
-			switch {
-			case len(cc.List) == 1 && func() bool {
-				p, ok := c.apath(cc.List[0])
-				return ok && p.Root == rawDec && lastStep(p) == "SecurityIsEmpty"
-			}():
-				decEmpty = assignsSecurity(func(e ast.Expr) bool {
-					lit, ok := unparen(e).(*ast.CompositeLit)
-					return ok && len(lit.Elts) == 0
-				})
-			case len(cc.List) == 1 && func() bool {
-				be, ok := unparen(cc.List[0]).(*ast.BinaryExpr)
-				if !ok || be.Op != token.EQL {
-					return false
+			flagPos, flagNeg, lenZero, lenNonZero := false, false, false, false
+			for _, cl := range c.literalsAt(dfd, as) {
+				if fp, ok := c.apath(cl.e); ok && fp.Root == rawDec && lastStep(fp) == "SecurityIsEmpty" {
+					if cl.neg {
+						flagNeg = true
+					} else {
+						flagPos = true
+					}
 				}
-				call, ok := unparen(be.X).(*ast.CallExpr)
-				return ok && c.isBuiltin(call, "len")
-			}():
-				decNil = assignsSecurity(func(e ast.Expr) bool { return isNilIdent(c, e) })
-			case len(cc.List) == 0:
-				// default: rebuild from the padded list
-				usesPadded := false
-				for _, s := range cc.Body {
-					ast.Inspect(s, func(m ast.Node) bool {
-						if rs, ok := m.(*ast.RangeStmt); ok {
-							if p, ok := c.apath(rs.X); ok && p.Root == rawDec && len(p.Steps) == 1 && p.Steps[0] == "Security" {
-								usesPadded = true
-							}
+				if be, ok := unparen(cl.e).(*ast.BinaryExpr); ok && be.Op == token.EQL {
+					if call, ok := unparen(be.X).(*ast.CallExpr); ok && c.isBuiltin(call, "len") {
+						if cl.neg {
+							lenNonZero = true
+						} else {
+							lenZero = true
 						}
-						return true
-					})
+					}
 				}
-				decRebuild = usesPadded && assignsSecurity(func(e ast.Expr) bool { return true })
+			}
+			rhs := unparen(as.Rhs[i])
+			switch {
+			case flagPos:
+				if lit, ok := rhs.(*ast.CompositeLit); ok && len(lit.Elts) == 0 {
+					decEmpty = true
+				}
+			case flagNeg && lenZero:
+				if isNilIdent(c, rhs) {
+					decNil = true
+				}
+			case flagNeg && lenNonZero:
+				// rebuilt from the padded list: directly from it (helper call) or by a loop over it in the same branch
+				if usesPadded(rhs) {
+					decRebuild = true
+				} else {
+					block, _ := c.enclosingBlock(dfd, as)
+					for _, st := range block {
+						if rs, ok := st.(*ast.RangeStmt); ok && usesPadded(rs.X) {
+							decRebuild = true
+						}
+					}
+				}
 			}
 		}
 		return true
